@@ -6,8 +6,11 @@
 (* The micro-steps inside a stage are internal (no event).  The P-layer invariants are checked on the       *)
 (* matched states (cfg), i.e. on the states the real programs went through.                                 *)
 EXTENDS Output, Json, IOUtils, SequencesExt
+CONSTANT TraceDoc      \* cfg: TraceDoc <- LoadedDoc; a substituted constant is evaluated once at start-up, whereas a plain
+                       \* definition `Doc == JsonDeserialize(..)` is re-parsed at every reference (measured: quadratic cost)
 VARIABLES tid, l
-Doc == JsonDeserialize(IOEnv.TRACE_FILE)
+LoadedDoc == JsonDeserialize(IOEnv.TRACE_FILE)
+Doc == TraceDoc
 Traces == Doc.traces
 TNBk == Doc.nbk
 TRuns == Doc.runs
